@@ -98,13 +98,20 @@ func checkParseAliasing(p *Program, r *Result, rule string) {
 		if !ok || fn.Blocks == nil {
 			continue
 		}
+		// the record type the parser returns; a local cursor that wraps the buffer is not handed to the caller
+		resName := ""
+		if res := fn.Signature.Results(); res.Len() > 0 {
+			if nt, _ := structOf(res.At(0).Type()); nt != nil {
+				resName = nt.Obj().Name()
+			}
+		}
 		for _, in := range instrsOf(fn) {
 			st, ok := in.(*ssa.Store)
 			if !ok {
 				continue
 			}
 			tn, f, _, ok := fieldRef(st.Addr)
-			if !ok || !isByteSlice(st.Val.Type()) {
+			if !ok || !isByteSlice(st.Val.Type()) || (resName != "" && tn != resName) {
 				continue
 			}
 			org := oc.origins(st.Val)
